@@ -767,6 +767,19 @@ pub fn specify_set() -> Vec<Program> {
         ext: vec![0],
         root0: None,
     });
+    // impure user code: the creator keeps the handle of its struct outside salsa and, when it is
+    // re-executed, specifies on that old handle before creating the struct again (must panic)
+    v.push(Program {
+        name: "spec-prev-handle".into(),
+        cells: vec![(0, Dur::Low), (1, Dur::Low)],
+        nodes: vec![
+            NodeDef::new(Kind::Mk, Ex::Mk(vec![ent_post(k(1), k(1), cell(0), k(5), vec![Post::SpecPrev { val: k(0x29) }])])),
+            NodeDef::new(Kind::Ev, Ex::OnTs(0, 0, 2)),
+            NodeDef::new(Kind::Ev, Ex::add(cell(1), k(1))),
+        ],
+        ext: vec![0],
+        root0: None,
+    });
     // specify twice in one execution (panics when cell 0 != 0)
     v.push(Program {
         name: "spec-twice".into(),
